@@ -16,9 +16,9 @@ LEVEL = "exploration"
 RULE = ("address lists of 1-3 hosts from {v4 literal, v6 literal, v6%numeric-scope literal, bare name, x.local, x.local., FQDN, FQDN.} x per-host mDNS outcome "
         "{v4, v6, both, several of each, no answer within the timeout, raises} x per-host OS-resolver outcome {v4, v6, both (v4 first), empty, gaierror, "
         "unknown address family only} x zeroconf provision {no manager, empty manager, supplied AsyncZeroconf, supplied Zeroconf, instance the library "
-        "created earlier and still uses} x entry point {host_resolver.async_resolve_host, APIClient.start_connection (addresses captured at the "
+        "created earlier and still uses, empty manager on a host where no mDNS socket can be opened (followed by the application supplying its own instance)} x entry point {host_resolver.async_resolve_host, APIClient.start_connection (addresses captured at the "
         "resolve->connect boundary, TCP attempts at the fake sockets)}; complete for <= 2 hosts, seeded sample for 3; caller cancellation / 30 s resolve "
-        "timeout during an mDNS request or an OS lookup; ZeroconfManager operation sequences (all of length <= 5 over set/get/close). Oracle: reference "
+        "timeout during an mDNS request or an OS lookup; ZeroconfManager operation sequences (all of length <= 5 over set/get/close/get-while-creation-fails). Oracle: reference "
         "resolver from the statement (result blocks in configured order, v6 before v4 inside an mDNS block, literal verbatim incl. scope id and port), "
         "exact lookup-call trace (none for literals, mDNS before OS, OS only when mDNS gave nothing, OS only for other names), never [] and never a raw "
         "OSError, close counts per fake instance (supplied: 0 on every path; library-created: exactly 1 once no longer needed). Non-trivial = the real "
@@ -40,7 +40,7 @@ FQDN = ("fqdn", "fqdn.")
 MDNS_FOUND = ("v4", "v6", "both", "multi")
 MDNS_NOTHING = ("none", "raise")
 OS_KINDS = ("v4", "v6", "both", "empty", "gaierror", "unknown-family")
-PROVISIONS = ("no-manager", "empty-manager", "supplied-async", "supplied-sync", "library-precreated")
+PROVISIONS = ("no-manager", "empty-manager", "supplied-async", "supplied-sync", "library-precreated", "empty-manager+create-fault")
 
 
 def host_str(form: str, i: int) -> str:
@@ -92,8 +92,9 @@ def tup(ip: str) -> tuple[Any, ...]:
     return ("v4", ip, PORT)
 
 
-def reference(hosts: list[tuple[str, str, str]]) -> dict[str, Any]:
-    """Reference resolver written from the statement. hosts = [(form, mdns kind, os kind)]."""
+def reference(hosts: list[tuple[str, str, str]], mdns_available: bool = True) -> dict[str, Any]:
+    """Reference resolver written from the statement. hosts = [(form, mdns kind, os kind)].
+    mdns_available=False: no mDNS socket can be opened at all (every name falls back to the OS resolver, no mDNS request is ever made)."""
     blocks: list[list[list[tuple[Any, ...]]]] = []   # per host: ordered groups, each group compared as a multiset
     calls: list[tuple[str, str]] = []
     for i, (form, md, os_) in enumerate(hosts):
@@ -102,7 +103,7 @@ def reference(hosts: list[tuple[str, str, str]]) -> dict[str, Any]:
         if form in LITERAL:
             groups = [[tup(host)]]
         else:
-            if form in NAMES:
+            if form in NAMES and mdns_available:
                 calls.append(("mdns", f"dev{i}"))
                 if md == "hang":
                     return {"kind": "cut", "calls": calls}
@@ -113,7 +114,7 @@ def reference(hosts: list[tuple[str, str, str]]) -> dict[str, Any]:
                 calls.append(("os", host))
                 if os_ == "hang":
                     return {"kind": "cut", "calls": calls}
-                if os_ == "gaierror":
+                if os_ in ("gaierror", "-"):   # "-": no OS answer configured for this host = the simulated resolver does not know the name
                     return {"kind": "error", "calls": calls}
                 ans = os_answer(os_, i)
                 g = [tup(x) for x in ans if isinstance(x, str)]
@@ -177,8 +178,10 @@ def run_case(case: dict[str, Any]) -> dict[str, Any]:
         elif prov == "supplied-sync":
             supplied = world.supplied_zeroconf()
             mgr = ZeroconfManager(supplied)
-        elif prov == "empty-manager":
+        elif prov in ("empty-manager", "empty-manager+create-fault"):
             mgr = ZeroconfManager()
+            if prov.endswith("create-fault"):
+                world.create_fault = OSError(19, "No such device (no multicast-capable interface)")
         elif prov == "library-precreated" and case["entry"] == "direct":
             mgr = ZeroconfManager()
             pre = mgr.get_async_zeroconf().zeroconf
@@ -201,6 +204,8 @@ def run_case(case: dict[str, Any]) -> dict[str, Any]:
             if prov == "library-precreated":
                 pre = cli.zeroconf_manager.get_async_zeroconf().zeroconf
             mgr = cli.zeroconf_manager
+            if prov.endswith("create-fault"):
+                world.create_fault = OSError(19, "No such device (no multicast-capable interface)")
             rec = sim.call("start_connection", lambda: cli.start_connection())
         try:
             ending = case.get("ending")
@@ -233,6 +238,14 @@ def run_case(case: dict[str, Any]) -> dict[str, Any]:
                 out["again"] = again
                 sim.settle()
             out["lib_after_call"] = [(z.idx, z.close_calls) for z in world.library_instances()]
+            if prov.endswith("create-fault") and mgr is not None:
+                # later the application hands its own instance to the same manager (ReconnectLogic(zeroconf_instance=...) does this)
+                world.create_fault = None
+                late = world.supplied_async()
+                try:
+                    mgr.set_instance(late)
+                except RuntimeError as e:
+                    out["late_set_instance"] = repr(e)
             if mgr is not None:
                 fin = sim.call("manager.async_close", lambda: mgr.async_close())
                 sim.run(until=lambda: fin.done, max_time=sim.clock + 5)
@@ -256,7 +269,7 @@ def judge(case: dict[str, Any], o: dict[str, Any]) -> list[tuple[str, str]]:
 
     out: list[tuple[str, str]] = []
     hosts = case["hosts"]
-    ref = reference(hosts)
+    ref = reference(hosts, mdns_available=not case["provision"].endswith("create-fault"))
     rec = o["rec"]
     ending = case.get("ending")
     direct = case["entry"] == "direct"
@@ -406,7 +419,7 @@ def one(ctx: Ctx, case: dict[str, Any], label: str) -> None:
 
 
 # ---------------------------------------------------------------- ZeroconfManager operation sequences
-MGR_OPS = ("set_A", "set_A_sync", "set_B", "get", "close")
+MGR_OPS = ("set_A", "set_A_sync", "set_B", "get", "close", "get_fails")
 
 
 def run_manager_sequence(seq: tuple[str, ...], init: str) -> list[tuple[str, str]]:
@@ -448,6 +461,23 @@ def run_manager_sequence(seq: tuple[str, ...], init: str) -> list[tuple[str, str
                     return out
                 if not exp_err and cur is None:
                     cur = under
+            elif op == "get_fails":
+                # no mDNS socket can be opened: creating an instance raises; with an instance already set nothing is created
+                world.create_fault = OSError(19, "No such device")
+                try:
+                    got = mgr.get_async_zeroconf()
+                    if cur is None:
+                        out.append(("C20/manager/create-fault-swallowed", f"step {k}: get returned {got!r} although creating an instance fails ({seq}, init {init})"))
+                        return out
+                    if got.zeroconf is not cur:
+                        out.append(("C20/manager/get-returned-other-instance", f"step {k}: get returned #{got.zeroconf.idx}, current is #{cur.idx} ({seq}, init {init})"))
+                        return out
+                except OSError:
+                    if cur is not None:
+                        out.append(("C20/manager/unexpected-exception", f"step {k} get with an instance set raised ({seq}, init {init})"))
+                        return out
+                finally:
+                    world.create_fault = None
             elif op == "get":
                 try:
                     got = mgr.get_async_zeroconf()
@@ -539,6 +569,8 @@ def shard(ctx: Ctx) -> None:
             if where == "mdns" and form not in NAMES:
                 continue
             for prov in PROVISIONS:
+                if prov.endswith("create-fault"):
+                    continue   # (no mDNS request can hang when no mDNS socket exists)
                 for entry in ("direct", "client"):
                     for ending in (("cancel", 0.01), ("cancel", 1.0), ("double-cancel", 0.01), ("double-cancel", 1.0), None):
                         for second in (("v4", "-", "-"), ("bare", "both", "-")):
@@ -556,7 +588,7 @@ def shard(ctx: Ctx) -> None:
 def exhaustive(tier: str) -> Any:
     subs = ["all single-host cases x 5 provisions x 2 entry points", "all ordered pairs of per-host options (63^2) for the direct/client entry"
             + (" x every provision" if tier == "thorough" else " with the provision rotating"),
-            f"all ZeroconfManager operation sequences of length <= {5 if tier == 'thorough' else 4} over {{set_A, set_A_sync, set_B, get, close}} from 3 initial states"]
+            f"all ZeroconfManager operation sequences of length <= {5 if tier == 'thorough' else 4} over {{set_A, set_A_sync, set_B, get, close, get-while-creation-fails}} from 3 initial states"]
     return subs
 
 
